@@ -727,7 +727,16 @@ func (V *Verifier) verifyFunction(fn *ssa.Function, lockMode bool) *FnResult {
 				ex.oblige(f, f.exit, "ensures", trimLabel2(lab)+":does-not-attach", e.Label, fn.Pos(), tFalse, "the contract no longer attaches to the code ("+err.Error()+"): "+e.Text)
 				continue
 			}
-			ex.oblige(f, f.exit, "ensures", trimLabel2(lab), e.Label, fn.Pos(), v.t, "postcondition: "+e.Text)
+			o := ex.oblige(f, f.exit, "ensures", trimLabel2(lab), e.Label, fn.Pos(), v.t, "postcondition: "+e.Text)
+			if o != nil {
+				if ce, ok := e.Expr.(*ast.CallExpr); ok {
+					if id, ok := ce.Fun.(*ast.Ident); ok && id.Name == "implies" && len(ce.Args) == 2 {
+						if a, err := env.trans(ce.Args[0]); err == nil {
+							o.Ante = &a.t
+						}
+					}
+				}
+			}
 		}
 		if c.HasMods {
 			ex.frameObligations(f, c)
